@@ -311,6 +311,32 @@ theorem disconnect_only_cancels (s : State α) (id : Id) (sel : Option Cid) :
       · have : ¬ (c ∈ e.inactive ∨ c = e.active) := by simpa [Entry.all] using hc
         simp [hc, this]
 
+/-- **Exit ⇒ unregistration, whatever the stream's state.**  `Actor::run` calls
+`Clients::unregister` right after `run_inner` returns (source shape pinned by the constant
+`exitUnregistersAtOnce`): nothing the connection still has queued or unsent — the contents
+of its packet and message queues, its flags — influences what the unregistration does to
+the registry: the resulting entries depend only on the entries before and on the
+connection's owner. -/
+theorem unregister_ignores_stream_state (cfg : Cfg α) (s : State α) (c : Cid) (x x' : Conn α)
+    (hx : s.conns c = some x) (ho : x'.owner = x.owner) :
+    (unregister cfg (setConn s c (some x')) c).entries = (unregister cfg s c).entries := by
+  -- the registry part only looks at `entries`, `sentTo` and (for the notice) other records
+  have key : ∀ (t u : State α) (id : Id), t.entries = u.entries →
+      (unregisterReg cfg t id c).entries = (unregisterReg cfg u id c).entries := by
+    intro t u id he
+    unfold unregisterReg
+    rw [he]
+    split
+    · exact he
+    · split
+      · split
+        · rw [(trySendHealth_sameReg _ _ _ _).entries, (trySendHealth_sameReg _ _ _ _).entries]
+          funext k; simp only [setEntry_entries, he]
+        · funext k; simp only [emit_entries, setEntry_entries, setSentTo_entries, he]
+      · funext k; simp only [setEntry_entries, he]
+  simp only [RelayRegistry.unregister, setConn_conns, if_true, hx, ho]
+  exact key _ _ _ rfl
+
 /-! ### Non-vacuity: concrete histories on which the hypotheses above hold -/
 
 /-- A toy configuration: capacity 1, real size limits, payload = byte list. -/
